@@ -28,6 +28,7 @@ MOLS = {
     "hf": dict(batch=["hf"]),
     "mix": dict(batch=["h2o", "h2"]),
     "mix3": dict(batch=["ch4", "h2o", "hf"]),
+    "mixb": dict(batch=["nh3", "hf"]),
     "ch3": dict(batch=["ch3"], mult=2),
     "oh-": dict(batch=["oh"], charges=-1),
     "c2h4": dict(batch=["c2h4"]),
@@ -37,7 +38,9 @@ mdsim.POOL.setdefault("oh", ([8, 1], [[0.0, 0.0, 0.0], [0.97, 0.0, 0.0]]))
 
 # settings families: jobs of one family may share ONE dictionary object (with different molecules)
 FAM = {
-    "am1": {"method": "AM1", "scf_eps": 1e-8, "scf_converger": [1]},
+    # explicit element list (documented alternative to letting Molecule fill it in): drivers built from
+    # these dictionaries are valid for every molecule of the pool, so driver reuse across molecules is legal
+    "am1": {"method": "AM1", "scf_eps": 1e-8, "scf_converger": [1], "elements": [0, 1, 6, 7, 8, 9]},
     "am1_pulay": {"method": "AM1", "scf_eps": 1e-8, "scf_converger": [2]},
     "pm3_pulay": {"method": "PM3", "scf_eps": 1e-7, "scf_converger": [2]},
     "mndo_fixed": {"method": "MNDO", "scf_eps": 1e-6, "scf_converger": [0, 0.3]},
@@ -53,7 +56,7 @@ FAM = {
     "pm3_b1_loose": {"method": "PM3", "scf_eps": 1e-4, "scf_converger": [1], "scf_backward": 1},
     "am1_b2": {"method": "AM1", "scf_eps": 1e-8, "scf_converger": [0, 0.2], "scf_backward": 2},
     "pm6sp_b1": {"method": "PM6_SP", "scf_eps": 1e-8, "scf_converger": [1], "scf_backward": 1},
-    "am1_md": {"method": "AM1", "scf_eps": 1e-7, "scf_converger": [1]},
+    "am1_md": {"method": "AM1", "scf_eps": 1e-7, "scf_converger": [1], "elements": [0, 1, 6, 7, 8, 9]},
     "am1_bad_active": {"method": "AM1", "scf_eps": 1e-7, "scf_converger": [1], "active_state": 1},
     "am1_uhf_pulay": {"method": "AM1", "scf_eps": 1e-7, "scf_converger": [2], "UHF": True},
 }
@@ -90,13 +93,20 @@ JOBS = {
     "md_lang_mix": dict(fam="am1_md", mol="mix", kind="md", eng="langevin"),
     "md_xl_h2o": dict(fam="am1_md", mol="h2o", kind="md", eng="xl"),
     "md_ksa_nh3": dict(fam="am1_md", mol="nh3", kind="md", eng="ksa"),
+    "md_basic_ch4": dict(fam="am1_md", mol="ch4", kind="md", eng="basic"),
+    "md_basic_h2o_com": dict(fam="am1_md", mol="h2o", kind="md", eng="basic", remove_com=["linear", 1]),
+    "md_basic_nh3_ang": dict(fam="am1_md", mol="nh3", kind="md", eng="basic", remove_com=["angular", 2]),
+    "md_lang_mix3b": dict(fam="am1_md", mol="mixb", kind="md", eng="langevin"),
+    "md_xl_nh3": dict(fam="am1_md", mol="nh3", kind="md", eng="xl"),
     "opt_h2o": dict(fam="am1_md", mol="h2o", kind="opt"),
+    "opt_nh3": dict(fam="am1_md", mol="nh3", kind="opt"),
     "fail_odd_rhf": dict(fam="am1", mol="ch3", kind="sp", nomult=True, expect_fail=True),
     "fail_unsorted": dict(fam="am1", mol="h2o", kind="sp", unsorted=True, expect_fail=True),
     "fail_uhf_pulay": dict(fam="am1_uhf_pulay", mol="ch3", kind="sp", expect_fail=True),
     "fail_active_no_exc": dict(fam="am1_bad_active", mol="h2o", kind="sp", expect_fail=True),
 }
 GRAD_JOBS = [j for j, v in JOBS.items() if v["kind"] == "grad"]
+MD_JOBS = [j for j, v in JOBS.items() if v["kind"] in ("md", "opt")]
 
 
 class InjectedFailure(RuntimeError):
@@ -143,7 +153,7 @@ class Session:
             sp = self.dicts[fam]
         else:
             sp = copy.deepcopy(FAM[fam])
-            self.dicts.setdefault(fam, sp)
+            self.dicts[fam] = sp  # "the dictionary of this family" = the most recent one
         m = MOLS[j["mol"]]
         species, xyz = mdsim.build_batch({"batch": m["batch"], "rotate": 77})
         if j.get("unsorted"):
@@ -191,19 +201,34 @@ class Session:
         if kind == "md":
             out = {"molid": [0], "prefix": prefix, "print every": 0, "checkpoint every": 2, "xyz": 1, "h5": {"data": 1, "coordinates": 1}}
             eng = j["eng"]
+            out["prefix"] = os.path.join(self.workdir, f"md-{eng}")  # a reused MD driver keeps its output prefix
             common = dict(seqm_parameters=sp, timestep=0.4, Temp=300.0, output=out)
-            if eng == "basic":
-                md = MDm.Molecular_Dynamics_Basic(**common)
-            elif eng == "langevin":
-                md = MDm.Molecular_Dynamics_Langevin(damp=20.0, **common)
-            elif eng == "xl":
-                md = MDm.XL_BOMD(xl_bomd_params={"k": 5}, **common)
+            key = ("md", eng, id(sp))
+            need = set(mol.species.reshape(-1).tolist())
+            if reuse.get("driver") and key in self.drivers and need <= self.drivers[key][1]:
+                md = self.drivers[key][0]
+                self.md_reused = getattr(self, "md_reused", 0) + 1
             else:
-                md = MDm.KSA_XL_BOMD(xl_bomd_params={"k": 4, "max_rank": 2, "err_threshold": 0.0, "T_el": 1500}, **common)
-            md.run(mol, steps=3, seed=11)
+                if eng == "basic":
+                    md = MDm.Molecular_Dynamics_Basic(**common)
+                elif eng == "langevin":
+                    md = MDm.Molecular_Dynamics_Langevin(damp=20.0, **common)
+                elif eng == "xl":
+                    md = MDm.XL_BOMD(xl_bomd_params={"k": 5}, **common)
+                else:
+                    md = MDm.KSA_XL_BOMD(xl_bomd_params={"k": 4, "max_rank": 2, "err_threshold": 0.0, "T_el": 1500}, **common)
+                self.drivers[key] = (md, set(sp["elements"]), sp)
+            rc = j.get("remove_com")
+            md.run(mol, steps=3, seed=11, remove_com=tuple(rc) if rc else None)
             return {"x": _np(mol.coordinates), "v": _np(mol.velocities), "Etot": _np(mol.Etot)}
         if kind == "opt":
-            opt = MDm.Geometry_Optimization_SD(sp, alpha=0.005, force_tol=1e-4, max_evl=4)
+            key = ("opt", id(sp))
+            need = set(mol.species.reshape(-1).tolist())
+            if reuse.get("driver") and key in self.drivers and need <= self.drivers[key][1]:
+                opt = self.drivers[key][0]
+            else:
+                opt = MDm.Geometry_Optimization_SD(sp, alpha=0.005, force_tol=1e-4, max_evl=4)
+                self.drivers[key] = (opt, set(sp["elements"]), sp)
             fe, de = opt.run(mol, log=False)
             return {"x": _np(mol.coordinates), "Etot": _np(mol.Etot), "fe": _np(fe), "de": _np(de)}
         raise ValueError(kind)
@@ -278,7 +303,10 @@ def _child_history(ops, workdir, threads):
             for k in op.get("ids", [op.get("id")]):
                 sess.pending.pop(k, None)
         except BaseException as e:  # noqa: BLE001
-            entry["exc"] = f"{type(e).__name__}: {str(e)[:160]}"
+            if "injected failure at call" in str(e):  # re-wrapped by a library except clause
+                entry["aborted"] = str(e)[:200]
+            else:
+                entry["exc"] = f"{type(e).__name__}: {str(e)[:160]}"
             for k in op.get("ids", [op.get("id")]):
                 sess.pending.pop(k, None)
         finally:
@@ -355,6 +383,10 @@ def gen_history(rng):
             ops.append({"op": "rng", "seed": rng.randrange(1 << 30), "n": rng.choice([1, 7, 100])})
         else:
             j = rng.choice(names)
+            if rng.random() < 0.25:
+                j = rng.choice(MD_JOBS)  # MD/optimiser drivers carry the most per-object state
+                reuse["driver"] = rng.random() < 0.7
+                reuse["dict"] = True
             op = {"op": "run", "job": j, "id": f"j{k}", "reuse": reuse}
             if rng.random() < 0.15 and not JOBS[j].get("expect_fail"):
                 op["abort"] = rng.choice([1, 2, 3, 5, 8, 13, 21, 34, 55, 89, 144, 233, 377, 610])
